@@ -376,8 +376,168 @@ def load_config_cases():
     return out
 
 
+# ---------------------------------------------------------------------------------------
+class OpaqueValue:
+    """an override value about which nothing is known: its truthiness is a symbolic Boolean (both
+    outcomes are explored), so the proof holds for 0, "", empty sets, False ... as well"""
+
+    def __init__(self, name):
+        self.name = name
+
+    def __bool__(self):
+        from pyvc.interp import Interp
+        from pyvc.sym import SymBool
+
+        return Interp.current.ctx.branch(SymBool(z3.Bool(f"truthy[{self.name}]")))
+
+    def __len__(self):
+        return 1 if bool(self) else 0
+
+
+def replay_with_overrides(r):
+    """real layers: an explicit falsy value given by a higher source must win"""
+    from halmos.config import default_config
+
+    base = default_config().with_overrides(ConfigSource.config_file, loop=7, solver_command="z3 -smt2", panic_error_codes={1, 17}, solver_timeout_assertion=5.0)
+    for name, falsy in (("loop", 0), ("solver_command", ""), ("panic_error_codes", set()), ("solver_timeout_assertion", 0.0)):
+        try:
+            top = base.with_overrides(ConfigSource.command_line, **{name: falsy})
+            got = top.value_with_source(name)
+        except BaseException as e:  # noqa
+            return {"reproduced": True, "detail": f"with_overrides(command_line, {name}={falsy!r}) raised {type(e).__name__}: {e}"}
+        if got != (falsy, ConfigSource.command_line):
+            return {"reproduced": True, "detail": f"config file sets {name}, command line sets {name}={falsy!r}: effective value is {got!r}, expected ({falsy!r}, command_line)", "inputs": [name, repr(falsy)]}
+    return {"reproduced": False, "detail": "real Config layers honour falsy overrides"}
+
+
+def replay_parse_dict(r):
+    """real parser: a structured option given as a native TOML value must mean what the command line means"""
+    from halmos.config import TomlParser, arg_parser
+
+    cli = arg_parser().parse_args(["--solver-timeout-assertion", "500"]).solver_timeout_assertion
+    for key, val, want in (("solver-timeout-assertion", 500, cli), ("solver-timeout-assertion", "500", cli)):
+        try:
+            got = TomlParser().parse_dict({"global": {key: val}})[key.replace("-", "_")]
+        except BaseException as e:  # noqa
+            return {"reproduced": True, "detail": f"parse_dict({key} = {val!r}) raised {type(e).__name__}: {e}"}
+        if got != want:
+            return {"reproduced": True, "detail": f"halmos.toml `{key} = {val!r}` gives {got!r}; `--{key} 500` on the command line gives {want!r}", "inputs": [key, repr(val)]}
+    for key, val in (("trace-events", ["BOGUS"]), ("array-lengths", ["x=oops"])):
+        try:
+            got = TomlParser().parse_dict({"global": {key: val}})
+            return {"reproduced": True, "detail": f"malformed `{key} = {val!r}` accepted as {got!r}"}
+        except BaseException:  # noqa
+            pass
+    return {"reproduced": False, "detail": "real TomlParser parses native values like the command line and rejects malformed ones"}
+
+
+def with_overrides_cases():
+    import halmos.config as hcfg
+
+    out = []
+
+    def harness(interp):
+        ctx = interp.ctx
+        calls = []
+
+        def config_ctor(i, args, kwargs):
+            calls.append((args, dict(kwargs)))
+            return ("new-layer", len(calls))
+
+        interp.contracts["halmos.config:Config"] = config_ctor
+        parent = object.__new__(hcfg.Config)
+        vals = {"loop": OpaqueValue("a"), "solver_command": OpaqueValue("b"), "panic_error_codes": OpaqueValue("c")}
+        fn = hcfg.Config.__dict__["with_overrides"]
+        r = interp.call(fn, [parent, ConfigSource.function_annotation], dict(vals))
+        ok = len(calls) == 1 and calls[0][0] == [] and r == ("new-layer", 1)
+        ctx.oblige("exactly-one-new-layer-is-built-and-returned", z3.BoolVal(ok))
+        if len(calls) == 1:
+            kw = calls[0][1]
+            ctx.oblige("new-layer-has-this-layer-as-parent", z3.BoolVal(kw.get("_parent") is parent))
+            ctx.oblige("new-layer-carries-the-given-source", z3.BoolVal(kw.get("_source") is ConfigSource.function_annotation))
+            rest = {k: v for k, v in kw.items() if k not in ("_parent", "_source")}
+            ctx.oblige("every-override-is-stored-unchanged (whatever its truthiness)", z3.BoolVal(set(rest) == set(vals) and all(rest[k] is vals[k] for k in vals if k in rest)), info={"stored": sorted(rest)})
+
+    out.append(Case(f"{PROP}/config.Config.with_overrides", "three opaque values", harness, replay=replay_with_overrides, sources=("halmos.config:Config.with_overrides",)))
+
+    def harness_bad(interp):
+        ctx = interp.ctx
+
+        def config_ctor(i, args, kwargs):
+            raise TypeError("Config.__init__() got an unexpected keyword argument 'no_such_option'")
+
+        interp.contracts["halmos.config:Config"] = config_ctor
+        parent = object.__new__(hcfg.Config)
+        fn = hcfg.Config.__dict__["with_overrides"]
+        try:
+            r = interp.call(fn, [parent, ConfigSource.config_file], {"no_such_option": 1})
+            ctx.oblige("unknown-option-is-rejected (exit 2), not defaulted", z3.BoolVal(False), info={"returned": str(r)[:80]})
+        except SystemExit as e:
+            ctx.oblige("unknown-option-is-rejected (exit 2), not defaulted", z3.BoolVal(e.code == 2))
+
+    out.append(Case(f"{PROP}/config.Config.with_overrides", "unknown option", harness_bad, sources=("halmos.config:Config.with_overrides",)))
+    return out
+
+
+class _RecordingAction:
+    def __init__(self, name, log):
+        self.name = name
+        self.log = log
+
+    def parse(self, value):
+        self.log.append((self.name, value))
+        return ("parsed", self.name, value)
+
+
+class _GhostField:
+    def __init__(self, name, action=None):
+        self.name = name
+        self.metadata = {"action": action} if action is not None else {}
+
+
+def parse_dict_cases():
+    import dataclasses
+
+    import halmos.config as hcfg
+
+    out = []
+    # every kind of value a TOML file can hold (string, integer, float, bool, array, table)
+    kinds = {"string": "1,2", "integer": 500, "float": 1.5, "bool": False, "array": [1, "x"], "table": {"k": 1}, "empty-string": "", "zero": 0, "empty-array": []}
+    for kname, value in kinds.items():
+
+        def harness(interp, value=value):
+            ctx = interp.ctx
+            log = []
+            flds = [_GhostField("with_action", _RecordingAction("with_action", log)), _GhostField("plain"), _GhostField("other_action", _RecordingAction("other_action", log))]
+            interp.externals[dataclasses.fields] = lambda i, c: flds
+            interp.externals[hcfg.fields] = lambda i, c: flds
+            fn = hcfg.TomlParser.__dict__["parse_dict"]
+            r = interp.call(fn, [hcfg.TomlParser(), {"global": {"with-action": value, "plain": value}}], {})
+            ctx.oblige("result-has-exactly-the-given-keys (dashes normalised)", z3.BoolVal(isinstance(r, dict) and sorted(r) == ["plain", "with_action"]), info={"got": str(r)[:120]})
+            if isinstance(r, dict) and "with_action" in r and "plain" in r:
+                ctx.oblige("structured-option-value-goes-through-its-parser (validated, same meaning as on the command line)", z3.BoolVal(r["with_action"] == ("parsed", "with_action", value) and log == [("with_action", value)]), info={"got": str(r["with_action"])[:80]})
+                ctx.oblige("plain-option-value-is-kept-unchanged", z3.BoolVal(r["plain"] is value))
+
+        out.append(Case(f"{PROP}/config.TomlParser.parse_dict", f"value kind {kname}", harness, replay=replay_parse_dict, sources=("halmos.config:TomlParser.parse_dict",)))
+
+    for label, parsed in (("no [global] section", {"other": {}}), ("two sections", {"global": {}, "other": {}}), ("empty file", {})):
+
+        def harness(interp, parsed=parsed):
+            ctx = interp.ctx
+            interp.externals[hcfg.fields] = lambda i, c: []
+            fn = hcfg.TomlParser.__dict__["parse_dict"]
+            try:
+                r = interp.call(fn, [hcfg.TomlParser(), parsed], {})
+                ctx.oblige("malformed-file-is-rejected (exit 2)", z3.BoolVal(False), info={"returned": str(r)[:80]})
+            except SystemExit as e:
+                ctx.oblige("malformed-file-is-rejected (exit 2)", z3.BoolVal(e.code == 2))
+
+        out.append(Case(f"{PROP}/config.TomlParser.parse_dict", label, harness, sources=("halmos.config:TomlParser.parse_dict",)))
+    return out
+
+
 def build_cases(tier="quick"):
-    return value_with_source_cases() + getattribute_cases() + solver_command_cases() + annotation_cases() + load_config_cases()
+    return value_with_source_cases() + getattribute_cases() + solver_command_cases() + annotation_cases() + load_config_cases() + with_overrides_cases() + parse_dict_cases()
 
 
 # ---------------------------------------------------------------------------------------
